@@ -5,7 +5,7 @@ import ast
 from ..inline import is_replace_if_present
 from ..program import Program, AnalysisError, walk_local, dotted
 from ..analysis import Analyzer, Spec, src
-from ..rules import (GWF, EXC, mpt, need_func, stores_to, is_const)
+from ..rules import (GWF, EXC, mpt, need_func, stores_to, is_const, kw)
 from ..taint import TaintEngine, SOURCE_ATTRS, SOURCE_FUNCS, PARAM_SOURCES
 from . import common
 
@@ -190,8 +190,49 @@ def mask_wiring(prog, an, rep):
                           'C16.WMC.subprocess', g.qname + ' -> simplecmd.cmd',
                           g.where(call), 'simplecmd.cmd is called without '
                           'Repository.cmd (no mask_pwd default)')
-    # in simplecmd: every use of `command` outside Popen goes through
-    # mask_pwd (structural double check of the taint verdict)
+    # the mask reaches _do_cmd from cmd: forwarded with **kwargs (and not
+    # popped on the way) or handed over by name -- a mask that is lost is a
+    # None mask, and a None mask hides nothing
+    cf = need_func(an, 'bert_e.lib.simplecmd.cmd')
+    df = need_func(an, 'bert_e.lib.simplecmd._do_cmd')
+    dsecret = [p_ for p_ in df.params if p_ in _masked_values(df)]
+    csecret = _mask_candidates(prog, cf)[0]
+    popped = any(isinstance(x, ast.Call) and
+                 src(x.func) == (cf.node.args.kwarg.arg
+                                 if cf.node.args.kwarg else '?') + '.pop' and
+                 x.args and is_const(x.args[0], 'mask_pwd')
+                 for x in walk_local(cf.node, include_root=False))
+    n_fw = 0
+    for x in prog.calls_in(cf):
+        if not an.call_matches(cf, x, Spec.func(df.qname)):
+            continue
+        n_fw += 1
+        rep.evaluated()
+        if dsecret:
+            i = df.params.index(dsecret[0])
+            v = kw(x, dsecret[0]) or (x.args[i] if len(x.args) > i and not
+                                      any(isinstance(a_, ast.Starred)
+                                          for a_ in x.args[:i + 1]) else None)
+            ok = v is not None and csecret is not None and \
+                src(v) == csecret
+            if v is None and cf.node.args.kwarg is not None and \
+                    'mask_pwd' not in cf.params and not popped and any(
+                        k.arg is None and
+                        src(k.value) == cf.node.args.kwarg.arg
+                        for k in x.keywords) and dsecret[0] == 'mask_pwd':
+                ok = True       # still inside **kwargs, bound by name
+        else:
+            ok = not popped and cf.node.args.kwarg is not None and any(
+                k.arg is None and src(k.value) == cf.node.args.kwarg.arg
+                for k in x.keywords) and 'mask_pwd' not in cf.params
+        rep.check(ok, R, cf.qname + ': the mask is handed to _do_cmd',
+                  cf.where(x), 'this call runs the command without the '
+                  'mask: errors and output of the command are shown as '
+                  'they are')
+    rep.floor('C16 _do_cmd calls in simplecmd.cmd', n_fw, 1)
+    # in simplecmd: every use of `command` outside Popen goes through the
+    # mask (structural double check of the taint verdict; what happens to
+    # `output`, re-bound along the way, is the flow-sensitive taint's to say)
     for q in ('bert_e.lib.simplecmd.cmd', 'bert_e.lib.simplecmd._do_cmd'):
         g = need_func(an, q)
         pm = {}
@@ -200,8 +241,15 @@ def mask_wiring(prog, an, rep):
                 pm[ch] = n
         maskers = {m.name for m, data, secret in _mask_candidates(prog, g)[1]
                    if _mask_shape(an, m, data, secret)[0]}
+        secrets = _masked_values(g)
+
+        def secret_test(t):
+            pol = True
+            while isinstance(t, ast.UnaryOp) and isinstance(t.op, ast.Not):
+                t, pol = t.operand, not pol
+            return pol if src(t) in secrets else None
         for x in walk_local(g.node, include_root=False):
-            if isinstance(x, ast.Name) and x.id in ('command', 'output') \
+            if isinstance(x, ast.Name) and x.id == 'command' \
                     and isinstance(x.ctx, ast.Load):
                 par = pm.get(x)
                 rep.evaluated()
@@ -209,22 +257,66 @@ def mask_wiring(prog, an, rep):
                     src(par.func) in maskers | {'subprocess.Popen',
                                                 '_do_cmd'} and
                     x in par.args)
-                # mask_pwd written out: x.replace(pwd, '***') if pwd else x
-                up = par
-                for _ in range(6):
+                # the mask written out: the text is the receiver of
+                # .replace(<secret>, <constant>), or stands where a test on
+                # the secret said there is none
+                if isinstance(par, ast.Attribute) and par.attr == 'replace' \
+                        and isinstance(pm.get(par), ast.Call) and \
+                        _is_mask_call(pm[par], secrets):
+                    okp = True
+                up, below = par, x
+                for _ in range(12):
+                    if up is None:
+                        break
                     if isinstance(up, ast.IfExp) and \
                             is_replace_if_present(up):
                         okp = True
+                    if isinstance(up, (ast.IfExp, ast.If)):
+                        pol = secret_test(up.test)
+                        arm = None
+                        if isinstance(up, ast.IfExp):
+                            arm = True if below is up.body else (
+                                False if below is up.orelse else None)
+                        else:
+                            arm = True if below in up.body else (
+                                False if below in up.orelse else None)
+                        if pol is not None and arm is not None and \
+                                arm != pol:
+                            okp = True      # no secret here: nothing to hide
                     if isinstance(up, ast.Call) and \
                             src(up.func) == 'isinstance' and x in up.args:
                         okp = True      # a type test shows nothing
-                    up = pm.get(up)
-                if x.id == 'output':
-                    st = [s for s, _ in stores_to(g, 'output')]
-                    okp = okp or isinstance(par, (ast.Return, ast.Tuple))
+                    below, up = up, pm.get(up)
                 rep.check(okp, 'C16.MPT.mask-uses', '%s: use of %s at L%d' % (
                     q, x.id, x.lineno), g.where(x), '%s is used outside '
                     'mask_pwd(...) / Popen' % x.id)
+
+
+def _masked_values(g):
+    """Source texts p of what g masks: <x>.replace(p[.encode()], <const>)."""
+    out = set()
+    for x in ast.walk(g.node):
+        if isinstance(x, ast.Call) and _is_mask_call(x, None):
+            a0 = x.args[0]
+            if isinstance(a0, ast.Call) and \
+                    isinstance(a0.func, ast.Attribute) and \
+                    a0.func.attr == 'encode' and not a0.args:
+                a0 = a0.func.value
+            if isinstance(a0, (ast.Name, ast.Attribute)):
+                out.add(src(a0))
+    return out
+
+
+def _is_mask_call(call, secrets):
+    def enc(v):
+        if isinstance(v, ast.Call) and isinstance(v.func, ast.Attribute) \
+                and v.func.attr == 'encode' and not v.args:
+            return v.func.value
+        return v
+    return isinstance(call.func, ast.Attribute) and \
+        call.func.attr == 'replace' and len(call.args) == 2 and \
+        isinstance(enc(call.args[1]), ast.Constant) and (
+            secrets is None or src(enc(call.args[0])) in secrets)
 
 
 def quoting_agreement(prog, an, rep):
@@ -323,6 +415,9 @@ def _mask_candidates(prog, g):
                 n.value.args and is_const(n.value.args[0], 'mask_pwd'):
             pvar = n.targets[0].id
     cands = []
+    if pvar is None and 'mask_pwd' in g.params and \
+            not stores_to(g, 'mask_pwd'):
+        pvar = 'mask_pwd'       # the keyword taken as a parameter of its own
     if pvar is None:
         return None, cands
     for m in g.nested.values():
@@ -363,7 +458,8 @@ def sanitiser_shape(prog, an, rep):
             continue
         idiom = [x for x in walk_local(g.node, include_root=False)
                  if is_replace_if_present(x)]
-        rep.check(bool(cands) or bool(idiom), R, q + ': mask_pwd',
+        rep.check(bool(cands) or bool(idiom) or pvar in _masked_values(g),
+                  R, q + ': mask_pwd',
                   g.where(), 'the local sanitiser mask_pwd is gone')
         for m, data, secret in cands:
             ok, shown = _mask_shape(an, m, data, secret)
